@@ -85,12 +85,16 @@ def run(chk, replay=None):
             wits.append(open(p).read())
         elif f.endswith(".args"):
             argsf.append(open(p).read())
+    cd = os.path.join(VERIF, "corpus", "C03")
+    corpus_texts = [l.strip() for f in sorted(os.listdir(cd)) for l in open(os.path.join(cd, f)) if l.strip()]
     modules = ["mod witness { const A: u8 = 1; const B: (bool, [u8; 2]) = (true, 0x0102); }", "mod param { const P: Either<u8, u16> = Left(3); }", "mod witness { }",
                "mod witness { const A: List<u8, 4> = list![1, 2]; }\nmod param { const X: Option<u256> = None; }"]
     jsons = wits + argsf + ['{"A":{"value":"1","type":"u8"}}', "{}", '{"A":{"value":"(true, 0x0102)","type":"(bool, [u8; 2])"},"B":{"value":"None","type":"Option<u8>"}}']
     lines = []
     nmut = 25 if quick else 250
     import layout
+    for t in corpus_texts:
+        lines.append("(entry program %s)" % quote(t))
     for t in texts:
         lines.append("(entry program %s)" % quote(t))
         # valid programs in other layouts: comments with multi-byte characters in front of calls, CRLF, tabs
